@@ -19,28 +19,28 @@ NA = {
 CHECKS = {
  "C13": ("exploration",
          "deterministic simulation: real sender+receiver over a simulated wire, seeded schedules of 'no data yet' at every device read, reference = sent sequence; plus enumerated single would-block sweep",
-         "Seeded exploration of polling schedules x packet sequences x link kinds with the real send and receive paths of all three interfaces over simulated devices; every device read is a scheduling point decided from the tape. The oracle is the sent sequence itself (prefix at all times, equality at quiescence, no spurious error, exact unit consumption, bounded liveness once data has arrived). A deterministic sweep puts one would-block burst at every unit position of 12 two-packet sequences on each link. Sampling level: failures replay exactly from the minimised tape.",
+         "Seeded exploration of polling schedules x packet sequences x link kinds with the real send and receive paths of all three interfaces over simulated devices; every device read is a scheduling point decided from the tape. The oracle is the sent sequence itself (prefix at all times, equality at quiescence, no spurious error, exact unit consumption, bounded liveness once data has arrived). 40% of the runs are duplex (both endpoints are full link objects that send and poll), optionally with transmit back-pressure, optionally with failing sends of the receiving endpoint (whose own direction is then not judged: its reception must stay transparent). A deterministic sweep puts one would-block burst at every unit position of 12 two-packet sequences on each link. Sampling level: failures replay exactly from the minimised tape.",
          "Trusted: the simulated devices return only values the real drivers can return; FIFO lossless wire; whole frames eventually arrive. Not a proof.",
          "DESIGN.md §5 S-LINK / C13"),
  "C06": ("exploration",
          "deterministic simulation with wire fault injection: scripted hostile link-frame streams through the real receivers under seeded polling schedules, probe-packet oracle",
-         "Seeded exploration of fault sequences on the wire (corrupted, wrongly sized, duplicated, reordered, interrupted, foreign frames; line noise; CAN overruns, standard/remote frames) x polling schedules x left-over receiver state x receiver restarts, against the real try_get_packet of all three links. Oracle: every poll returns (no panic, overflow or out-of-bounds: checks are compiled in), no poll blocks once the script is exhausted, and after any prefix two back-to-back probe packets come out as [P1,P2] or as [P2] with an error reported on P1 - never altered, stitched or with P2 missing. Found and led to the repair of four defects (known_findings.txt).",
+         "Seeded exploration of fault sequences on the wire (corrupted, wrongly sized, duplicated, reordered, interrupted, foreign frames; line noise; CAN overruns, standard/remote frames) x polling schedules x left-over receiver state x receiver restarts x sends made through the receiver object between polls, against the real try_get_packet of all three links; probes may be identical, differ in one respect, or be of the maximum size class. Oracle: every poll returns (no panic, overflow or out-of-bounds: checks are compiled in), no poll blocks once the script is exhausted, and after any prefix two back-to-back probe packets come out as [P1,P2] or as [P2] with an error reported on P1 - never altered, stitched or with P2 missing. Found and led to the repair of four defects (known_findings.txt).",
          "Trusted: result attribution by the last frame taken from the device; whole link frames only; the library's own encoders define what a valid frame is. Not a proof.",
          "DESIGN.md §5 S-LINK / C06"),
  "C19": ("exploration",
          "deterministic simulation over long hostile/clean traffic histories with a counting allocator (SUT/SIM domain tags) as observation point, measured after every poll",
-         "Seeded exploration of long traffic histories (hundreds to tens of thousands of link frames per run, hostile and clean, incl. abandoned 4096-frame announcements and real 4096-frame packets) under seeded polling schedules; SUT-domain heap bytes are measured after every poll and the largest single SUT allocation during every poll. Oracle: bounded by fresh + constant + 96 B x announced size between polls, no more than a fresh receiver right after a delivery or reassembly error, no single allocation beyond what a one-byte length can announce unless explained by the packet in flight (judged even for a poll that never returns); never more than 4096 frames taken into one packet (over-long packets using the reserved id bit are generated); USART/serial device read errors injected at framing-aligned positions; nothing left when the receiver is dropped.",
+         "Seeded exploration of long traffic histories (hundreds to tens of thousands of link frames per run, hostile and clean, incl. abandoned 4096-frame announcements and real 4096-frame packets) under seeded polling schedules; SUT-domain heap bytes are measured after every poll and the largest single SUT allocation during every poll. Oracle: bounded by fresh + 1 KiB + 96 B x announced size between polls, no more than a fresh receiver right after a delivery or reassembly error, no single allocation beyond what a one-byte length can announce unless explained by the packet in flight (judged even for a poll that never returns); never more than 4096 frames taken into one packet (over-long packets using the reserved id bit are generated); USART/serial device read errors injected at framing-aligned positions; nothing left when the receiver is dropped.",
          "Trusted: the counting allocator's domain attribution (devices and harness switch to SIM on entry); bounds are deliberately loose in the constant factors (36 B per frame real vs 96 B allowed). Not a proof.",
          "DESIGN.md §5 S-LINK / C19"),
  "C14": ("fault_enumeration",
-         "deterministic simulation of the transmit-side devices: exhaustive single-fault placement (would-block burst, short write of every size, Interrupted, hard error, flush error, displaced frame at every device call) plus seeded random reaction sequences",
+         "deterministic simulation of the transmit-side devices: exhaustive single-fault placement (would-block burst, short write of every size, Interrupted, hard error, flush error, flush answered Interrupted 1-7 times in a row, displaced frame at every device call) plus seeded random reaction sequences",
          "For a fixed packet list x 3 links every single fault position is enumerated after a dry run that counts the device calls (exhaustive over that list only); on top, seeded exploration with random packets up to 4096 frames and random reaction mixes. A run sends one packet or a short sequence of related packets through the same sender object. Oracle: the stream the device accepted is always a prefix of the packets' frames (the library's own fragmenter/encoders define them), equal to it whenever Ok is returned, and on the serial port flushed successfully after the last write; write/flush failures and displaced frames yield Err; delays (would-block bursts up to 300 000, also on USART flush) and partial writes alone never make the call fail or block. Found and led to the repair of the short-write defect (known_findings.txt).",
          "Trusted: device models return only values the real drivers can return; the expected stream is defined by the library's own to_frames/encoders. Not a proof beyond the enumerated list.",
          "DESIGN.md §5 S-SEND / C14"),
  "C07": ("exploration",
          "deterministic simulation of a faulty frame channel (drop, duplicate, reorder, rewrite, inject, late frames) into the real PacketBuilder, lock-step acceptance model",
          "Seeded exploration of frame histories through a lossy/duplicating/reordering/corrupting channel into the real reassembler, compared step by step with an acceptance model written from the property statement: constructor accepts exactly start frames, add_frame accepts exactly the next frame of the same packet, a rejection carries a reason that truly applies and leaves every observer (counts, build result) unchanged, accounting never underflows, build completes exactly at the announced count, is repeatable, and yields the in-order concatenation of the accepted payloads.",
-         "Trusted: the acceptance model (40 lines, from the statement); only decoder-producible frames are offered. Not a proof.",
+         "Trusted: the acceptance model (40 lines, from the statement); frames have at most 8 data bytes and start frames announce at most 4096 frames, continuation frames may carry any 16-bit id. Not a proof.",
          "DESIGN.md §5 S-BUILDER / C07"),
  "C15": ("exploration",
          "deterministic simulation: real Protocol over a scripted link with injected link results (every error kind), generated add/remove/tick/send histories, lock-step model, registry arbitration",
@@ -49,22 +49,22 @@ CHECKS = {
          "DESIGN.md §5 S-NODE / C15"),
  "C16": ("exploration",
          "deterministic simulation: real Protocol over a scripted link with injected send outcomes, generated histories, lock-step routing model",
-         "Seeded exploration of the same histories; every send_packet is compared with the routing rule: own-address destination loops back to every local handler once and reaches the link only if the own address is broadcast; any other destination reaches the link exactly once, unmodified, with no local handler; the link's send outcome (Ok or any of 18 error values) is returned to the caller.",
+         "Seeded exploration of the same histories; every send_packet is compared with the routing rule: own-address destination loops back to every local handler once and reaches the link only if the own address is broadcast; any other destination reaches the link exactly once, unmodified, with no local handler; the link's send outcome (Ok or any of 31 error values) is returned to the caller. One handler of a table may continue an own-address send up to 40 levels deep (nested sends from inside the delivery): every level must reach every other local handler exactly once; whether the running handler is re-entered, skipped or deferred is left open.",
          "Trusted: the routing model; send outcomes are pinned only when no handler transmits before the request itself. Not a proof.",
          "DESIGN.md §5 S-NODE / C16"),
  "C17": ("exploration",
          "deterministic simulation: generated register/remove histories interleaved with reveal deliveries on two independent paths, final registry sweep",
-         "Seeded exploration of registry-heavy histories (remove from the middle, id reuse, stale and never-issued ids). Ids returned by add must differ from every live id; after every registry operation a reveal delivery through tick and through loop-back send determines the live set (a handler is live if it fires on either path; a handler that fires on neither is attributed by asking the registry); removed handlers must never fire again on any delivery of the run; removing unregistered ids (incl. ids that alias a live id under truncation or masking) must report NoSuchHandler and change nothing; tables of up to 70 handlers; a twin node that gets a delivery after every registry operation separates handlers lost to the operation history from static dispatch defects; at the end every id ever seen is removed once more and must answer as the model says.",
+         "Seeded exploration of registry-heavy histories (remove from the middle, id reuse, stale and never-issued ids). Ids returned by add must differ from every live id; after every registry operation a reveal delivery through tick and through loop-back send determines the live set (a handler is live if it fires on either path; a handler that fires on neither is attributed by asking the registry); removed handlers must never fire again on any delivery of the run; removing unregistered ids (incl. ids that alias a live id under truncation or masking) must report NoSuchHandler and change nothing; tables of up to 260 handlers; up to two handlers register further handlers from inside a delivery (the ids returned and the registry state afterwards are judged, not that delivery); a twin node that gets a delivery after every registry operation separates handlers lost to the operation history from static dispatch defects; at the end every id ever seen is removed once more and must answer as the model says.",
          "Trusted: the registry model (a map); liveness is observed through deliveries and through remove's own answer. Not a proof.",
          "DESIGN.md §5 S-NODE / C17"),
  "C18": ("exploration",
          "deterministic simulation: real exchange_packet(s) over a scripted link with generated incoming queues and injected link/send errors; routing compared differentially with an ordinary send on a twin node; wait callback position in the global event sequence",
-         "Seeded exploration of exchanges over all 16 requested kinds, both forms, both capture modes, all own-address classes and generated incoming queues (matching, wrong kind, wrong address, error-flagged, wrongly sized, 'nothing', link error, later traffic). Oracle: routing effects equal those of an ordinary send of the same request on an identically built twin node; the wait callback runs exactly once, after the routing effects and before the first poll; single form returns the first matching entry in arrival order and leaves everything after it on the link; multi form returns all matches in order and drains up to the first dry answer; timeout / empty list when nothing matches; link and send errors propagate.",
+         "Seeded exploration of exchanges over all 16 requested kinds and three application-defined kinds (error-accepting, zero-sized, 256-byte value), both forms, both capture modes, all own-address classes and generated incoming queues (matching, wrong kind, wrong address, error-flagged, wrongly sized, 'nothing', any of 30 link errors, later traffic; queues of up to 12 000 entries; entries that arrive only during the wait callback; an exchange performed by a handler while the request is being routed). Oracle: routing effects (those before the wait callback) equal those of an ordinary send of the same request on an identically built twin node; the wait callback runs exactly once, after the routing effects and before the first poll; single form returns the first matching entry in arrival order and leaves everything after it on the link; multi form returns all matches in order and drains up to the first dry answer; timeout / empty list when nothing matches; link and send errors propagate.",
          "Trusted: the library's own decoder defines 'decodes as the requested kind'; inputs that crash a decoder (C05's subject) are not generated. Not a proof.",
          "DESIGN.md §5 S-NODE / C18"),
  "C01": ("exploration",
          "deterministic simulation: two real nodes (Protocol over the real CAN/USART/serial interfaces) on a simulated reliable wire, seeded interleavings of sends, ticks of both nodes and device-level 'no data yet', handler logs against the sent sequence",
-         "Seeded exploration of event sequences (all 16 kinds, arbitrary field values, single- and multi-frame incl. 4096 frames) x address pairs (incl. broadcast) x handler-table mixes x all three links x interleavings of data arrival with polling, with traffic in both directions when handlers acknowledge. After every step every handler's log must be a prefix of exactly the events addressed to it (or all events for capture-all handlers), each decoding to the sent value; at quiescence logs equal expectations: once, in order, nothing that was not sent; all sends/ticks Ok; bounded ticks to quiescence once data has arrived.",
+         "Seeded exploration of event sequences (all 16 kinds, arbitrary field values, single- and multi-frame incl. 4096 frames) x address pairs (incl. broadcast) x handler-table mixes x all three links x interleavings of data arrival with polling, with traffic in both directions when handlers acknowledge; swarm options: receiver handler tables with a registration history (34-66 handlers, removals, later additions), broadcasts sent by a node whose own address is broadcast, transmit back-pressure, long no-data pauses sat out tick by tick. After every step every handler's log must be a prefix of exactly the events addressed to it (or all events for capture-all handlers), each decoding to the sent value; at quiescence logs equal expectations: once, in order, nothing that was not sent; all sends/ticks Ok; bounded ticks to quiescence once data has arrived.",
          "Trusted: reliable FIFO wire; simulated devices return only values the real drivers can return. Not a proof.",
          "DESIGN.md §5 S-E2E / C01"),
 }
